@@ -178,8 +178,8 @@ class SymH:
 
     # ------------------------------------------------------------ abstract callables
     def fn(self, name, ret='real', raises=(), attrs=None, missing=(), pure=True, nargs=None, sym=None, native=None,
-           log=None, mutates=False, minlen=0, inplace=False):
-        """abstract callable.  inplace: the (list) result is written into argument 0, which is returned (the way
+           log=None, mutates=False, minlen=0, inplace=False, truthy=None):
+        """abstract callable.  truthy: truth value of the callable object itself (None: an ordinary function, true).  inplace: the (list) result is written into argument 0, which is returned (the way
         mystic's own generated constraints work).  ret: real | int | bool | opaque | list | same (returns a list of the length of arg 0).
         Deterministic in its numeric/list arguments (uninterpreted function).  `raises`: exception type names
         that it may raise (decided by an uninterpreted predicate of the arguments)."""
@@ -265,6 +265,7 @@ class SymH:
         f.missing_attrs = set(missing)
         f.all_missing = True
         f.native = native
+        f.truthy = truthy
         f.spec = dict(ret=ret, raises=tuple(raises))
         return f
 
@@ -782,7 +783,7 @@ class NativeH:
 
     # ------------------------------------------------------------ abstract callables
     def fn(self, name, ret='real', raises=(), attrs=None, missing=(), pure=True, nargs=None, sym=None, native=None,
-           log=None, mutates=False, minlen=0, inplace=False):
+           log=None, mutates=False, minlen=0, inplace=False, truthy=None):
         H = self
         self._minlen = getattr(self, '_minlen', {})
         self._minlen[name] = minlen
